@@ -209,9 +209,9 @@ def gen_shadow():
     ]
 
 
-# ("err:closed" is known finding F37: logging.Handler.handleError only tolerates OSError, a closed sys.stderr gives
-#  ValueError, which leaves every pyflyby logger call - it is run as the finding's witness only)
-STDIO = ["out:flush", "out:closed", "out:none", "err:flush", "err:none"]
+# ("err:closed" was finding F37 - logging.Handler.handleError only tolerates OSError, a closed sys.stderr gives
+#  ValueError, which left every pyflyby logger call; repaired by fixes/C13-F37-emit-never-raises.diff)
+STDIO = ["out:flush", "out:closed", "out:none", "err:flush", "err:none", "err:closed"]
 
 
 def gen_stdio():
@@ -280,7 +280,7 @@ def gen_random(ctx, n):
                 o["faults"] = [f for f in o["faults"] if f[0] != "SNeedsImport"] + \
                               [["SNeedsImport", r.choice(EXC_CLASSES + ["SyntaxError"]), r.randint(1, 6)]]
         cases.append(mk("random", ops, level, jedi=r.random() < .1, bad_exc=bad, i=i, bad_finder=r.random() < .15,
-                        stdio=(r.choice(["out:flush", "err:flush"]) if r.random() < .2 and level != "DEBUG" else None)))
+                        stdio=(r.choice(["out:flush", "err:flush", "err:closed"]) if r.random() < .2 and level != "DEBUG" else None)))
     return cases
 
 
@@ -381,13 +381,7 @@ def is_F36(case, clause, detail):
     return False
 
 
-def is_F37(case, clause, detail):
-    """known finding F37: sys.stderr is a closed file: every pyflyby logger call raises ValueError (logging's
-    handleError only tolerates OSError), also the logger.error inside _safe_call's except block, before disable()"""
-    return case.get("stdio") == "err:closed"
-
-
-CLASSIFIERS = {"is_F36": is_F36, "is_F37": is_F37}
+CLASSIFIERS = {"is_F36": is_F36}
 
 
 # ---------------------------------------------------------------------------------------------
@@ -409,7 +403,7 @@ def evaluate(ctx, cases, results):
             continue
         impl, ref = r["impl"], r["ref"]
         a, b = c14.canon_impl(impl, c), c14.canon_model(mtr[ci], c)
-        d = c14.first_diff(a, b) if c.get("stdio") != "err:closed" else None      # F37: outside the model's domain
+        d = c14.first_diff(a, b)
         if d:
             ctx.disagreement("session trace under faults", c, d["impl"], dict(model=d["model"], step=d["step"], fields=d["fields"]))
             legacy.append(ci)
